@@ -19,7 +19,7 @@ import (
 	"github.com/jhump/grpctunnel/tunnelpb"
 )
 
-var overrunKinds = []string{"exact-window", "plus1", "plus-chunk", "many-windows", "mid-message", "after-credit-exact", "after-credit-plus1", "second-stream", "one-huge-frame", "flood-32MiB", "deadline-then-plus1", "deadline-then-windows"}
+var overrunKinds = []string{"exact-window", "plus1", "plus-chunk", "many-windows", "mid-message", "after-credit-exact", "after-credit-plus1", "second-stream", "one-huge-frame", "flood-32MiB", "deadline-then-plus1", "deadline-then-windows", "understated-envelopes", "understated-after-data"}
 
 func init() {
 	families["overrun"] = famOverrun
@@ -153,6 +153,15 @@ func famOverrun(w *World, c *Case, rng *rand.Rand) {
 		sendMsg(1, W+1)
 	case "one-huge-frame":
 		send(fMsg(1, uint32(W+5), make([]byte, W+5)))
+	case "understated-envelopes", "understated-after-data":
+		// the overrun is made of message frames that announce fewer bytes than they carry (size 0
+		// or 1 with a full chunk of data): what counts against the window is what arrives
+		if kind == "understated-after-data" {
+			sendMsg(1, 40000)
+		}
+		for i := 0; i < 12; i++ {
+			send(fMsg(1, uint32(i%2), make([]byte, 16384)))
+		}
 	case "deadline-then-plus1", "deadline-then-windows":
 		// the window is filled exactly, the deadline passes (the handler keeps running), then the
 		// peer goes on sending without any credit: the window is still enforced
